@@ -82,17 +82,23 @@ macro_rules! c11 {
     };
 }
 c11!(c11_normal_five_pos, RoundSeconds::NormalRounding, five, 0., 24.);
-c11!(c11_normal_five_neg, RoundSeconds::NormalRounding, five, -96., 0.);
+c11!(c11_normal_five_neg1, RoundSeconds::NormalRounding, five, -24., 0.);
+c11!(c11_normal_five_neg4, RoundSeconds::NormalRounding, five, -96., -24.);
 c11!(c11_normal_shur_pos, RoundSeconds::NormalRounding, shurooq, 0., 24.);
-c11!(c11_normal_shur_neg, RoundSeconds::NormalRounding, shurooq, -96., 0.);
+c11!(c11_normal_shur_neg1, RoundSeconds::NormalRounding, shurooq, -24., 0.);
+c11!(c11_normal_shur_neg4, RoundSeconds::NormalRounding, shurooq, -96., -24.);
 c11!(c11_special_five_pos, RoundSeconds::SpecialRounding, five, 0., 24.);
-c11!(c11_special_five_neg, RoundSeconds::SpecialRounding, five, -96., 0.);
+c11!(c11_special_five_neg1, RoundSeconds::SpecialRounding, five, -24., 0.);
+c11!(c11_special_five_neg4, RoundSeconds::SpecialRounding, five, -96., -24.);
 c11!(c11_special_shur_pos, RoundSeconds::SpecialRounding, shurooq, 0., 24.);
-c11!(c11_special_shur_neg, RoundSeconds::SpecialRounding, shurooq, -96., 0.);
+c11!(c11_special_shur_neg1, RoundSeconds::SpecialRounding, shurooq, -24., 0.);
+c11!(c11_special_shur_neg4, RoundSeconds::SpecialRounding, shurooq, -96., -24.);
 c11!(c11_aggr_five_pos, RoundSeconds::AggressiveRounding, five, 0., 24.);
-c11!(c11_aggr_five_neg, RoundSeconds::AggressiveRounding, five, -96., 0.);
+c11!(c11_aggr_five_neg1, RoundSeconds::AggressiveRounding, five, -24., 0.);
+c11!(c11_aggr_five_neg4, RoundSeconds::AggressiveRounding, five, -96., -24.);
 c11!(c11_aggr_shur_pos, RoundSeconds::AggressiveRounding, shurooq, 0., 24.);
-c11!(c11_aggr_shur_neg, RoundSeconds::AggressiveRounding, shurooq, -96., 0.);
+c11!(c11_aggr_shur_neg1, RoundSeconds::AggressiveRounding, shurooq, -24., 0.);
+c11!(c11_aggr_shur_neg4, RoundSeconds::AggressiveRounding, shurooq, -96., -24.);
 
 /// None mode keeps the truncated second: T0 <= instant*3600 < T0 + 1 (within 1e-6 s of float slack)
 macro_rules! c11_none {
@@ -118,7 +124,8 @@ macro_rules! c11_none {
     };
 }
 c11_none!(c11_none_pos, 0., 24.);
-c11_none!(c11_none_neg, -96., 0.);
+c11_none!(c11_none_neg1, -24., 0.);
+c11_none!(c11_none_neg4, -96., -24.);
 
 // =====================================================================================
 // C01 / C13 — right-ascension interpolation across the 360 -> 0 wrap.
@@ -159,15 +166,22 @@ pub fn c01_ra_wrap_next() {
     kani::assume(ra - prev >= 0.5 && ra - prev <= 1.5 && (next + 360.) - ra >= 0.5 && (next + 360.) - ra <= 1.5);
     ra_contract(prev, ra, next);
 }
-#[kani::proof]
-pub fn c01_ra_wrap_prev() {
-    // prev just below 360, ra just above 0 (the day after the wrap)
-    let prev = any_f64_in(358., 360.);
-    let ra = any_f64_in(0., 2.);
-    let next = any_f64_in(0., 4.);
-    kani::assume((ra + 360.) - prev >= 0.5 && (ra + 360.) - prev <= 1.5 && next - ra >= 0.5 && next - ra <= 1.5);
-    ra_contract(prev, ra, next);
+macro_rules! ra_wrap_prev {
+    ($name:ident, $lo:expr, $hi:expr) => {
+        #[kani::proof]
+        pub fn $name() {
+            // prev just below 360, ra just above 0 (the day after the wrap)
+            let prev = any_f64_in($lo, $hi);
+            let ra = any_f64_in(0., 2.);
+            let next = any_f64_in(0., 4.);
+            kani::assume((ra + 360.) - prev >= 0.5 && (ra + 360.) - prev <= 1.5 && next - ra >= 0.5 && next - ra <= 1.5);
+            ra_contract(prev, ra, next);
+        }
+    };
 }
+ra_wrap_prev!(c01_ra_wrap_prev_a, 358., 359.);
+ra_wrap_prev!(c01_ra_wrap_prev_b, 359., 359.5);
+ra_wrap_prev!(c01_ra_wrap_prev_c, 359.5, 360.);
 /// sanity range of the first difference (two days of solar motion)
 #[kani::proof]
 pub fn c01_ra_range() {
